@@ -7,6 +7,7 @@
 package main
 
 import (
+	"strings"
 	"bufio"
 	"flag"
 	"fmt"
@@ -94,5 +95,45 @@ func main() {
 			}
 		}
 		queries(t, clientPool, namePool, idPool)
+	}
+
+	// The mapping a tool builds (cmd/*/actions.go): the file's, with the parsed
+	// --predefined-topic options merged over it.  Small pools, so that options repeat names and IDs
+	// of earlier options and of the file, with and without a client ID.
+	optNames := []string{"a", "b", "z", "a/b"}
+	optClients := []string{"c1", "c2"}
+	for k := 0; k < 4**count; k++ {
+		file := topics.PredefinedTopics{}
+		for i := r.Intn(3); i > 0; i-- {
+			c := []string{"c1", "c2", "*"}[r.Intn(3)]
+			for j := r.Intn(3); j > 0; j-- {
+				file.Add(c, optNames[r.Intn(len(optNames))], uint16(1+r.Intn(3)))
+			}
+		}
+		fileTok := vh.PredefString(file)
+		var opts, toks []string
+		for i := r.Intn(5); i > 0; i-- {
+			name, id := optNames[r.Intn(len(optNames))], 1+r.Intn(3)
+			o := fmt.Sprintf("%s;%d", name, id)
+			if r.Intn(2) == 0 {
+				o = fmt.Sprintf("%s;%s;%d", optClients[r.Intn(2)], name, id)
+			}
+			if r.Intn(40) == 0 {
+				o = []string{"a", "a;b;c;1", "a;x", "c1;a;70000", ""}[r.Intn(5)]
+			}
+			opts, toks = append(opts, o), append(toks, vh.HexS(o))
+		}
+		res := "ERR"
+		if len(opts) == 0 {
+			res = fileTok
+		} else if v, err := topics.ParsePredefinedTopicOptions(opts...); err == nil {
+			file.Merge(v)
+			res = vh.PredefString(file)
+		}
+		tok := "-"
+		if len(toks) > 0 {
+			tok = strings.Join(toks, "|")
+		}
+		fmt.Fprintf(out, "O %s %s %s\n", fileTok, tok, res)
 	}
 }
